@@ -35,7 +35,10 @@ func streamCodec(r *rng, n int, pfx string) {
 		if len(t) > 4000 {
 			t = []byte(r.pick(handMade))
 		}
-		switch r.n(7) {
+		switch r.n(10) {
+		case 7, 8, 9:
+			// the reflective encoder on the Go values the library marshals (enc.go)
+			streamEnc(r, id)
 		case 0:
 			res := guarded(func() string {
 				var b bytes.Buffer
